@@ -394,7 +394,7 @@ class Bits:
 
         """
         if bs is self:
-            return self.copy()
+            return self.__copy__()
         bs = Bits._create_from_bitstype(bs)
         s = object.__new__(self.__class__)
         s._bitstore = self._bitstore & bs._bitstore
@@ -419,7 +419,7 @@ class Bits:
 
         """
         if bs is self:
-            return self.copy()
+            return self.__copy__()
         bs = Bits._create_from_bitstype(bs)
         s = object.__new__(self.__class__)
         s._bitstore = self._bitstore | bs._bitstore
